@@ -13,6 +13,17 @@ pub use self::abstraction::{DiffableStr, DiffableStrRef};
 #[cfg(feature = "inline")]
 pub use self::inline::InlineChange;
 
+#[cfg(all(similar_verif, feature = "inline"))]
+pub use self::inline::verif_inline_internals;
+
+/// Verification hooks (only with `--cfg similar_verif`): the ratio pre-filters
+/// of [`get_close_matches`].
+#[cfg(similar_verif)]
+#[allow(missing_docs)]
+pub mod verif_text_internals {
+    pub use super::utils::{upper_seq_ratio, QuickSeqRatio};
+}
+
 use self::utils::{upper_seq_ratio, QuickSeqRatio};
 use crate::algorithms::IdentifyDistinct;
 use crate::deadline_support::{duration_to_deadline, Instant};
